@@ -407,6 +407,9 @@ func (x *Block) UnmarshalCBOR(data []byte) error {
 		if !ok {
 			return fmt.Errorf("expected cbor tag content to be []byte, got %T", rawTag.Content)
 		}
+		if len(rawBytes) == 0 {
+			return fmt.Errorf("expected cbor tag content to be a non-empty byte string")
+		}
 		_, _cid, err := cid.CidFromBytes(rawBytes[1:])
 		if err != nil {
 			return fmt.Errorf("failed to cast cbor tag content to cid.Cid: %w", err)
